@@ -121,6 +121,10 @@ def run(res, tier):
         res.rule("WR-8", "inside a for_each over inputs the first operation on a loop-invariant result column is not an overwrite-type operation (ring merging must keep every part)")
         n8 = wr8(p, res)
         res.floor("WR-8", "for_each bodies operating on a result column", n8, 1)
+        from .c11 import part1
+        res.rule("PART-1", "the closure handling one part of a slice of results bounds its limb loops by that part's own limb count (ring splitting)")
+        npt = part1(p, res)
+        res.floor("PART-1", "limb loops over a part of a slice of results", npt, 2)
         from . import sign
         res.rule("SIGN-1", "in res = a - b a write from `b` alone negates, a write from `a` alone does not, a write from both is a subtraction with a before b (add family: no negation, both -> add)")
         ns = sign.check(p, res, "SIGN-1", ("poulpy_cpu_ref::reference",))
